@@ -74,23 +74,28 @@ def r1_sinks(ctx, F):
 
 
 def path_facts(b, v, target_bb, roots=None):
-    """All consistent decision paths from entry to target_bb as lists of rendered (cond, label)."""
+    """All consistent decision paths from entry to target_bb as lists of (fact text, label) in the normal form of
+    VF.switch_cond: comparisons stated positively (label 'otherwise'), flag tests as has(x, F) with a truth label."""
     cache = {}
 
-    def text(u):
-        if u not in cache:
-            t = b.term(u)
-            cache[u] = vf.render(v.operand(t[1], u, len(b.stmts(u))), b, roots, short=True)
-        return cache[u]
+    def fact(u, lab):
+        if (u, lab) not in cache:
+            c, l = v.switch_cond(u, lab)
+            cache[(u, lab)] = (vf.render(c, b, roots, short=True), l)
+        return cache[(u, lab)]
 
     def consistent(facts, bb, lab):
-        t = text(bb)
-        for (u, l) in facts:
-            if text(u) == t and (l == 0) != (lab == 0):
+        t, l = fact(bb, lab)
+        nt = vf.neg_fact(t) if l != 0 and t.startswith(("Lt(", "Le(", "Eq(", "Ne(")) else None
+        for (u, ul) in facts:
+            t2, l2 = fact(u, ul)
+            if t2 == t and (l2 == 0) != (l == 0):
+                return False
+            if nt is not None and t2 == nt and l2 != 0:
                 return False
         return True
     paths = b.enum_paths(0, target=target_bb, consistent=consistent, limit=20000)
-    return [[(text(u), lab) for (u, lab) in p] for p in paths]
+    return [[fact(u, lab) for (u, lab) in p] for p in paths]
 
 
 def seal_off(facts):
@@ -222,8 +227,10 @@ def r3_shape(ctx, F):
                             key.append("opcode=%s" % lab)
                         elif t.startswith("BitAnd(") and "mode" in t:
                             key.append("op=%s" % lab)
-                        elif t.startswith("Gt(Add("):
-                            key.append("beyond" if lab != 0 else "within")
+                        elif t.startswith("Lt(") and ", Add(" in t and lab != 0:
+                            key.append("beyond")
+                        elif t.startswith("Le(Add(") and lab != 0:
+                            key.append("within")
                     results.setdefault(tuple(key), set()).add(val)
     opv = {v_["name"]: v_["discr"] for v_ in F.enums["abi::fuse_abi::Opcode"]["variants"]}
     W, FA = opv["Write"], opv["Fallocate"]
